@@ -331,27 +331,36 @@ fn decode_real<T: Hv>(input: &'static [u8]) -> (Res, Option<T>) {
     }
 }
 
-/// minimise the length heads of definite arrays and maps only
-fn minimise_container_heads(i: &Item) -> Item {
-    match i {
-        Item::Array(_, xs) => Item::Array(W::min_for(xs.len() as u64), xs.iter().map(minimise_container_heads).collect()),
-        Item::ArrayIndef(xs) => Item::ArrayIndef(xs.iter().map(minimise_container_heads).collect()),
-        Item::Map(_, kvs) => Item::Map(W::min_for(kvs.len() as u64), kvs.iter().map(|(k, v)| (minimise_container_heads(k), minimise_container_heads(v))).collect()),
-        Item::MapIndef(kvs) => Item::MapIndef(kvs.iter().map(|(k, v)| (minimise_container_heads(k), minimise_container_heads(v))).collect()),
-        Item::Tag(w, t, x) => Item::Tag(*w, *t, Box::new(minimise_container_heads(x))),
-        other => other.clone(),
+/// `b` is `a` with the length heads of some definite arrays / maps replaced by the minimal head
+/// (everything else, including integer / string / tag head widths, identical)
+fn eq_mod_container_heads(a: &Item, b: &Item) -> bool {
+    let wok = |wa: &W, wb: &W, n: usize| wb == wa || *wb == W::min_for(n as u64);
+    match (a, b) {
+        (Item::Array(wa, xs), Item::Array(wb, ys)) =>
+            xs.len() == ys.len() && wok(wa, wb, xs.len()) && xs.iter().zip(ys).all(|(x, y)| eq_mod_container_heads(x, y)),
+        (Item::ArrayIndef(xs), Item::ArrayIndef(ys)) =>
+            xs.len() == ys.len() && xs.iter().zip(ys).all(|(x, y)| eq_mod_container_heads(x, y)),
+        (Item::Map(wa, xs), Item::Map(wb, ys)) =>
+            xs.len() == ys.len() && wok(wa, wb, xs.len())
+                && xs.iter().zip(ys).all(|((k, v), (k2, v2))| eq_mod_container_heads(k, k2) && eq_mod_container_heads(v, v2)),
+        (Item::MapIndef(xs), Item::MapIndef(ys)) =>
+            xs.len() == ys.len()
+                && xs.iter().zip(ys).all(|((k, v), (k2, v2))| eq_mod_container_heads(k, k2) && eq_mod_container_heads(v, v2)),
+        (Item::Tag(wa, ta, x), Item::Tag(wb, tb, y)) => wa == wb && ta == tb && eq_mod_container_heads(x, y),
+        (x, y) => x == y,
     }
+}
+
+fn parse_all(bytes: &[u8]) -> Option<Item> {
+    let mut d = Decoder::new(bytes);
+    match parse_item(&mut d) { Ok(i) if d.position() == bytes.len() => Some(i), _ => None }
 }
 
 /// why did an exact type not reproduce its input? (the key of the ORACLE_FAIL line)
 fn classify_reencode(slice: &[u8], re: &[u8], ty: &str) -> String {
-    let mut d = Decoder::new(slice);
-    if let Ok(item) = parse_item(&mut d) {
-        if d.position() == slice.len() {
-            let canon = encode(&minimise_container_heads(&item));
-            if canon != slice && canon == re {
-                return "reencode/definite-container-nonminimal-length-head".into();
-            }
+    if let (Some(a), Some(b)) = (parse_all(slice), parse_all(re)) {
+        if slice != re && eq_mod_container_heads(&a, &b) {
+            return "reencode/definite-container-nonminimal-length-head".into();
         }
     }
     format!("reencode/{}", ty)
@@ -574,6 +583,12 @@ fn main() {
         run_enc::<AnyUInt>(AnyUInt::U16(x as u16), "boundary", oo);
         run_enc::<AnyUInt>(AnyUInt::U32(x as u32), "boundary", oo);
         run_enc::<AnyUInt>(AnyUInt::U64(x as u64), "boundary", oo);
+    }
+
+    // chunk of the wrong major type, truncated (the major type is tested before the length is read)
+    for b in [vec![0x7f, 0x1a, 0x15, 0x77, 0xf5], vec![0x5f, 0x1a, 0x00], vec![0x5f, 0x38], vec![0x7f, 0x38, 0x00],
+              vec![0x5f, 0x3b, 0x01, 0x02], vec![0x5f, 0x79, 0x00], vec![0x7f, 0x59, 0x00], vec![0x5f, 0x5f, 0xff, 0xff]] {
+        run_core(&b, "core-boundary", oo);
     }
 
     // ---- random streams ----
